@@ -152,12 +152,19 @@ func c04OuterMostOnly(c *core.Ctx) {
 			continue
 		}
 		recv := core.NamedOf(f.Signature.Recv().Type())
-		// holder: field whose load is passed to RemoveAndReleaseTree in Read
+		// holder: *Node field of the reader whose load is released by some method of the reader (Read itself or a helper)
 		var holder *types.Var
-		for _, ci := range core.Calls(f) {
-			if a := releaseArg(ci, r12, 0); a != nil {
-				if fa := holderLoad(a, r12); fa != nil {
-					holder = core.FieldOfAddr(fa)
+		for _, g := range c.RepoFunctions() {
+			if g.Signature.Recv() == nil || core.NamedOf(g.Signature.Recv().Type()) != recv {
+				continue
+			}
+			for _, ci := range core.Calls(g) {
+				if a := releaseArg(ci, r12, 0); a != nil {
+					if fa := holderLoad(a, r12); fa != nil {
+						if _, isParamBase := fa.X.(*ssa.Parameter); isParamBase {
+							holder = core.FieldOfAddr(fa)
+						}
+					}
 				}
 			}
 		}
